@@ -377,6 +377,267 @@ theorem nonempty_declared_kept (launch env : Dict) (k v : S) (h : dget env k = s
   rw [dget_expandAll]
   simp [expandVal, h, hv]
 
+/-! ### the document a replicated configuration reads (`FlowIRConcrete.instance`) -/
+
+private theorem keys_dset_nodup (d : Dict) (k v : S) (h : (keys d).Nodup) : (keys (dset d k v)).Nodup := by
+  induction d with
+  | nil => simp [dset, keys]
+  | cons e r ih =>
+    obtain ⟨a, b⟩ := e
+    simp only [keys, List.map_cons, List.nodup_cons] at h
+    by_cases hak : a = k
+    · subst hak
+      simpa [dset, keys] using h
+    · simp only [dset, hak, beq_iff_eq, if_false, keys, List.map_cons, List.nodup_cons]
+      refine ⟨?_, ih h.2⟩
+      intro hm
+      have h1 := (dget_isSome_iff_mem_keys (dset r k v) a).mpr (by simpa [keys] using hm)
+      rw [dget_dset] at h1
+      have hka : ¬ k = a := fun x => hak x.symm
+      simp only [beq_iff_eq, hka, if_false] at h1
+      exact h.1 (by simpa [keys] using (dget_isSome_iff_mem_keys r a).mp h1)
+
+private theorem keys_dupdate_nodup (d n : Dict) (h : (keys d).Nodup) : (keys (dupdate d n)).Nodup := by
+  unfold dupdate
+  induction n generalizing d with
+  | nil => simpa using h
+  | cons e r ih => simp only [List.foldl_cons]; exact ih _ (keys_dset_nodup d e.1 e.2 h)
+
+/-- `dict(d).update(p)` read key-wise -/
+private theorem dget_layered (d p : Dict) (k : S) :
+    dget (dupdate [] (dupdate (dupdate [] d) p)) k = match dgetLast p k with
+      | some v => some v
+      | none => dgetLast d k := by
+  have hn : (keys (dupdate (dupdate [] d) p)).Nodup :=
+    keys_dupdate_nodup _ _ (keys_dupdate_nodup [] d (by simp [keys]))
+  rw [dget_dupdate, dgetLast_eq_dget_of_nodup _ hn, dget_dupdate, dget_dupdate]
+  cases dgetLast p k <;> cases dgetLast d k <;> simp [dget]
+
+private theorem dget_copy (d : Dict) (k : S) : dget (dupdate [] d) k = dgetLast d k := by
+  rw [dget_dupdate]; cases dgetLast d k <;> simp [dget]
+
+private theorem dget_layer_fold (d p : List (S × Dict)) (ks : List S) (acc : List (S × Dict)) (n : S) :
+    dget (ks.foldl (layerStep d p) acc) n =
+      if n ∈ ks then some (dupdate (dupdate [] ((dget d n).getD [])) ((dget p n).getD [])) else dget acc n := by
+  induction ks generalizing acc with
+  | nil => simp
+  | cons a r ih =>
+    simp only [List.foldl_cons, ih, List.mem_cons]
+    by_cases hr : n ∈ r
+    · simp [hr]
+    · simp only [hr, if_false, or_false]
+      unfold layerStep
+      rw [dget_dset]
+      by_cases han : a = n
+      · subst han; simp
+      · have : ¬ n = a := fun h => han h.symm
+        simp [han, this]
+
+/-- lookup of one (lower-case) environment name in the flattened environments: the platform's environment
+layered over the default platform's when the platform defines the name, else the default platform's -/
+private theorem dget_flatEnvs (e : Envs) (plat n : S) :
+    dget (flatEnvs e plat) n =
+      let d := if plat == sDefault then [] else (dget e sDefault).getD []
+      match dget ((dget e plat).getD []) n with
+      | some pn => some (dupdate (dupdate [] ((dget d n).getD [])) pn)
+      | none => dget d n := by
+  unfold flatEnvs
+  simp only [dget_layer_fold]
+  cases hp : dget ((dget e plat).getD []) n with
+  | none =>
+    have : n ∉ keys ((dget e plat).getD []) := fun hm => by
+      have := (dget_isSome_iff_mem_keys _ n).mpr hm
+      simp [hp] at this
+    simp [this]
+  | some pn =>
+    have : n ∈ keys ((dget e plat).getD []) := (dget_isSome_iff_mem_keys _ n).mp (by simp [hp])
+    simp [this]
+
+private theorem platEnv_of_named (e : Envs) (nm plat : S) (h : (lower nm == sNone) = false) :
+    platEnv e nm plat = match dget ((dget e plat).getD []) (lower nm) with
+      | some x => .ok x
+      | none => .error .unknownEnv := by
+  unfold platEnv
+  simp only [h, Bool.false_eq_true, if_false]
+  cases dget e plat with
+  | none => simp [dget]
+  | some pe => simp only [Option.getD_some]; cases dget pe (lower nm) <;> rfl
+
+private theorem getEnv_inst (e : Envs) (nm plat : S) (h : (lower nm == sNone) = false) :
+    getEnv (instEnvs e plat) nm plat = match dget (flatEnvs e plat) (lower nm) with
+      | some x => .ok (dupdate [] x)
+      | none => .error .unknownEnv := by
+  unfold getEnv instEnvs
+  by_cases hp : (plat == sDefault) = true
+  · have hp' : plat = sDefault := by simpa using hp
+    subst hp'
+    simp only [BEq.rfl, if_true, platEnv_of_named _ _ _ h, dget, Option.getD_some]
+    cases dget (flatEnvs e sDefault) (lower nm) <;> rfl
+  · have hp2 : (sDefault == plat) = false := by
+      cases hx : (sDefault == plat) with
+      | false => rfl
+      | true => exact absurd (by simpa using hx : sDefault = plat) (fun x => hp (by simp [x]))
+    simp only [hp, Bool.false_eq_true, if_false, platEnv_of_named _ _ _ h, dget, hp2, BEq.rfl, if_true,
+      Option.getD_some]
+    cases dget (flatEnvs e plat) (lower nm) <;> rfl
+
+/-- **instance_platform_over_default.**  Also in the document that `instance(platform)` produces — the one every
+replicated (non-primitive) configuration, hence every running experiment, reads — the named environment visible
+to the platform is, key by key, the value the platform's own environment of that name declares *in the package*
+(`e`), else the value the default platform's environment of that name declares: flattening keeps the layering
+(as repaired by fixes/C17-instance-environment-layering.diff; `Witness/C17.lean` shows the old code did not). -/
+theorem instance_platform_over_default (e : Envs) (nm plat : S) (r : Dict)
+    (h : getEnv (instEnvs e plat) nm plat = .ok r) (k : S) :
+    dget r k = match litGet (platEnv e nm plat) k with
+      | some v => some v
+      | none => litGet (platEnv e nm sDefault) k := by
+  by_cases hn : (lower nm == sNone) = true
+  · -- `none`: the empty environment on every platform of every document
+    have h1 : ∀ (e' : Envs) (pl : S), platEnv e' nm pl = .ok [] := fun e' pl => by simp [platEnv, hn]
+    unfold getEnv at h
+    simp only [h1] at h
+    have : r = [] := by
+      by_cases hp : (plat == sDefault) = true
+      · simp only [hp, if_true] at h; injection h with h; rw [← h]; rfl
+      · simp only [hp, Bool.false_eq_true, if_false] at h; injection h with h; rw [← h]; rfl
+    subst this
+    simp [h1, litGet, dgetLast, dget]
+  · have hn' : (lower nm == sNone) = false := by simpa using hn
+    rw [getEnv_inst e nm plat hn', dget_flatEnvs] at h
+    rw [platEnv_of_named e nm plat hn', platEnv_of_named e nm sDefault hn']
+    by_cases hp : (plat == sDefault) = true
+    · have hp' : plat = sDefault := by simpa using hp
+      subst hp'
+      simp only [BEq.rfl, if_true] at h
+      cases hpn : dget ((dget e sDefault).getD []) (lower nm) with
+      | none => simp [hpn, dget] at h
+      | some pn =>
+        simp only [hpn, dget, Option.getD_none] at h
+        injection h with h
+        subst h
+        rw [dget_layered]
+        simp only [litGet, dgetLast]
+        cases dgetLast pn k <;> rfl
+    · simp only [hp, Bool.false_eq_true, if_false] at h
+      cases hpn : dget ((dget e plat).getD []) (lower nm) with
+      | none =>
+        simp only [hpn] at h
+        cases hdn : dget ((dget e sDefault).getD []) (lower nm) with
+        | none => simp [hdn] at h
+        | some dn =>
+          simp only [hdn] at h
+          injection h with h
+          subst h
+          simp only [litGet, dget_copy]
+      | some pn =>
+        simp only [hpn] at h
+        injection h with h
+        subst h
+        rw [dget_layered]
+        cases hdn : dget ((dget e sDefault).getD []) (lower nm) with
+        | none => simp [litGet, dgetLast]
+        | some dn => simp [litGet]
+
+/-- **instance_reload_platform_over_default.**  … and the same after the instance document has been stored and
+loaded again (a configuration loaded from an instance directory applies `instance(platform)` to the stored
+instance document): flattening twice is, key by key, flattening once. -/
+theorem instance_reload_platform_over_default (e : Envs) (nm plat : S) (r : Dict)
+    (h : getEnv (instEnvs (instEnvs e plat) plat) nm plat = .ok r) (k : S) :
+    dget r k = match litGet (platEnv e nm plat) k with
+      | some v => some v
+      | none => litGet (platEnv e nm sDefault) k := by
+  suffices hs : ∃ r1, getEnv (instEnvs e plat) nm plat = .ok r1 ∧ dget r k = dget r1 k by
+    obtain ⟨r1, h1, h2⟩ := hs
+    rw [h2]
+    exact instance_platform_over_default e nm plat r1 h1 k
+  by_cases hn : (lower nm == sNone) = true
+  · have h1 : ∀ (e' : Envs) (pl : S), platEnv e' nm pl = .ok [] := fun e' pl => by simp [platEnv, hn]
+    unfold getEnv at h ⊢
+    simp only [h1] at h ⊢
+    by_cases hp : (plat == sDefault) = true
+    · simp only [hp, if_true] at h ⊢
+      injection h with h
+      exact ⟨_, rfl, by rw [← h]⟩
+    · simp only [hp, Bool.false_eq_true, if_false] at h ⊢
+      injection h with h
+      exact ⟨_, rfl, by rw [← h]⟩
+  · have hn' : (lower nm == sNone) = false := by simpa using hn
+    rw [getEnv_inst _ nm plat hn', dget_flatEnvs] at h
+    rw [getEnv_inst e nm plat hn']
+    by_cases hp : (plat == sDefault) = true
+    · have hp' : plat = sDefault := by simpa using hp
+      subst hp'
+      simp only [BEq.rfl, if_true, instEnvs, dget, Option.getD_some, Option.getD_none] at h
+      cases hf : dget (flatEnvs e sDefault) (lower nm) with
+      | none => simp [hf] at h
+      | some x =>
+        simp only [hf] at h
+        injection h with h
+        subst h
+        refine ⟨_, rfl, ?_⟩
+        have hnd : (keys (dupdate (dupdate [] ([] : Dict)) x)).Nodup :=
+          keys_dupdate_nodup _ _ (keys_dupdate_nodup [] [] (by simp [keys]))
+        calc dget (dupdate [] (dupdate (dupdate [] ([] : Dict)) x)) k
+            = dgetLast (dupdate (dupdate [] ([] : Dict)) x) k := dget_copy _ k
+          _ = dget (dupdate (dupdate [] ([] : Dict)) x) k := dgetLast_eq_dget_of_nodup _ hnd k
+          _ = dgetLast x k := by rw [dget_dupdate]; cases dgetLast x k <;> simp [dupdate, dget]
+          _ = dget (dupdate [] x) k := (dget_copy x k).symm
+    · have hp2 : (sDefault == plat) = false := by
+        cases hx : (sDefault == plat) with
+        | false => rfl
+        | true => exact absurd (by simpa using hx : sDefault = plat) (fun x => hp (by simp [x]))
+      simp only [hp, Bool.false_eq_true, if_false, instEnvs, dget, hp2, BEq.rfl, if_true, Option.getD_some] at h
+      cases hf : dget (flatEnvs e plat) (lower nm) with
+      | none => simp [hf] at h
+      | some x =>
+        simp only [hf] at h
+        injection h with h
+        subst h
+        exact ⟨_, rfl, rfl⟩
+
+/-- **instance_defined_iff.**  Flattening neither invents nor loses environments: a name is an error for the
+replicated configuration exactly when it is one for the package (neither the platform nor the default platform
+defines it). -/
+theorem instance_defined_iff (e : Envs) (nm plat : S) :
+    (∃ r, getEnv (instEnvs e plat) nm plat = .ok r) ↔ (∃ r, getEnv e nm plat = .ok r) := by
+  by_cases hn : (lower nm == sNone) = true
+  · have h1 : ∀ (e' : Envs) (pl : S), platEnv e' nm pl = .ok [] := fun e' pl => by simp [platEnv, hn]
+    unfold getEnv
+    simp only [h1]
+  · have hn' : (lower nm == sNone) = false := by simpa using hn
+    rw [getEnv_inst e nm plat hn', dget_flatEnvs]
+    unfold getEnv
+    rw [platEnv_of_named e nm plat hn', platEnv_of_named e nm sDefault hn']
+    by_cases hp : (plat == sDefault) = true
+    · have hp' : plat = sDefault := by simpa using hp
+      subst hp'
+      simp only [BEq.rfl, if_true]
+      cases dget ((dget e sDefault).getD []) (lower nm) <;> simp [dget]
+    · simp only [hp, Bool.false_eq_true, if_false]
+      cases dget ((dget e plat).getD []) (lower nm) <;>
+        cases dget ((dget e sDefault).getD []) (lower nm) <;> simp
+
+/-! ### one configuration object, many calls -/
+
+/-- **step_preserves_conf.**  No call changes what the configuration object builds environments from. -/
+theorem step_preserves_conf (launch : Dict) (c : Conf) (call : Call) : (step launch c call).1 = c := rfl
+
+/-- **env_call_sequence_independent.**  On one configuration object the answer to a call does not depend on
+the calls served before it (environments of other components, of other names, the default environment,
+callers rewriting the dictionaries they were handed): every answer of a session is the answer a fresh object
+gives — so all single-call theorems above hold for every call of every session. -/
+theorem env_call_sequence_independent (launch : Dict) (c : Conf) (calls : List Call) :
+    runCalls launch c calls = calls.map (answer launch c) := by
+  induction calls with
+  | nil => rfl
+  | cons call rest ih => simp only [runCalls, step, List.map_cons, ih]
+
+/-- … in particular for a call after any prefix -/
+theorem env_after_any_prefix (launch : Dict) (c : Conf) (pre : List Call) (call : Call) :
+    (runCalls launch c (pre ++ [call])).getLast? = some (answer launch c call) := by
+  rw [env_call_sequence_independent]
+  simp
+
 /-! ### non-vacuity -/
 
 private def envs0 : Envs := loadEnvs
@@ -396,5 +657,9 @@ example : selected envs0 "plat".toList launch0 (some "MYENV".toList) =
     .ok [("A".toList, "2".toList), ("B".toList, "$A/x".toList), ("EMPTY".toList, []), ("DEFAULTS".toList, "FOO".toList),
          ("C".toList, "${L}".toList)] := by decide
 example : tokT .normal "$A".toList = [.ref "A".toList "$A".toList] := by decide
+/-- the replicated configuration (instance document of platform `plat`) gives the same layered environment -/
+example : envForNode sys0 (instEnvs envs0 "plat".toList) "plat".toList launch0 (some "MYENV".toList) true =
+    .ok [("INSTANCE_DIR".toList, "/i".toList), ("A".toList, "2".toList), ("B".toList, "2/x".toList),
+         ("C".toList, "LL".toList), ("FOO".toList, "foo".toList), ("PATH".toList, "/bin".toList)] := by decide
 
 end St4sd.C17
